@@ -55,6 +55,8 @@ def compute_name(obj, enclosing_ns):
 
 
 def resolve_ref(name, enclosing_ns):
+    if name.startswith('.'):
+        return name[1:]          # leading dot: the null namespace
     if '.' in name:
         return name
     return (enclosing_ns + '.' + name) if enclosing_ns else name
